@@ -64,10 +64,19 @@ func startProxy(handler bool, timeouts bool) (*proxyRig, error) {
 	}
 	nd := forwarder.NewDialer(forwarder.DefaultDialConfig())
 	dial := gateDial(nd.DialContext)
-	tr := &http.Transport{
-		DialContext:     dial,
-		TLSClientConfig: &tls.Config{RootCAs: pool, MinVersion: tls.VersionTLS12},
+	// the transport forwarder builds for itself (32 KiB read/write buffers, its timeouts), with the
+	// dial function replaced by the gating one and the scripted upstream's certificate trusted
+	tcfg := forwarder.DefaultHTTPTransportConfig()
+	if timeouts {
+		tcfg.ResponseHeaderTimeout = connectTimeoutMs * time.Millisecond
+		tcfg.IdleConnTimeout = idleTimeoutMs * time.Millisecond
 	}
+	tr, err := forwarder.NewHTTPTransport(tcfg)
+	if err != nil {
+		return nil, err
+	}
+	tr.DialContext = dial
+	tr.TLSClientConfig.RootCAs = pool
 	cfg := forwarder.DefaultHTTPProxyConfig()
 	cfg.Address = "127.0.0.1:0"
 	cfg.ProxyLocalhost = forwarder.AllowProxyLocalhost
@@ -78,6 +87,7 @@ func startProxy(handler bool, timeouts bool) (*proxyRig, error) {
 		cfg.WriteTimeout = writeTimeoutMs * time.Millisecond
 		cfg.IdleTimeout = idleTimeoutMs * time.Millisecond
 		cfg.ReadHeaderTimeout = readTimeoutMs * time.Millisecond
+		cfg.ConnectTimeout = connectTimeoutMs * time.Millisecond
 	}
 	cfg.UpstreamProxyFunc = func(req *http.Request) (*url.URL, error) {
 		sc := reg.get(req.URL.Host)
@@ -91,6 +101,10 @@ func startProxy(handler bool, timeouts bool) (*proxyRig, error) {
 			return &url.URL{Scheme: "https", Host: sc.farAddr}, nil
 		case "socks5":
 			return &url.URL{Scheme: "socks5", Host: sc.farAddr}, nil
+		case "upgrade":
+			if sc.ViaProxy {
+				return &url.URL{Scheme: "http", Host: sc.farAddr}, nil
+			}
 		}
 		return nil, nil
 	}
